@@ -32,6 +32,13 @@ def negative_controls(run, report):
         cfg = plans.MC_THREADS_CFG % dict(threads="1, 2", reads=3, defect="TRUE", cons="MCConstructed", props=prop)
         r = mc.run_mc(run, "MC_Threads", cfg, "neg-threads", emit=False, expect_violation=True)
         report("Threads: LimitSigmaWriteBack=TRUE violates " + prop.split()[1], bool(r["violated"]) or "violated" in r["out"])
+    # a shared outcome list rewritten in place to its dense ranks (sequentially invisible): another caller reads it half-rewritten
+    cfg = plans.SHARED_ARGS_CFG % dict(threads="{1, 2}", arg0="MCArg0", defect="TRUE", props="INVARIANT ResultIsSequential")
+    r = mc.run_mc(run, "MC_SharedArgs", cfg, "neg-shared-args", emit=False, expect_violation=True)
+    report("SharedArgs: RelabelInPlace=TRUE violates ResultIsSequential", any("ResultIsSequential" in v for v in r["violated"]))
+    cfg = plans.SHARED_ARGS_CFG % dict(threads="{1, 2}", arg0="MCArg0", defect="TRUE", props="INVARIANT AloneIsFine")
+    r = mc.run_mc(run, "MC_SharedArgs", cfg, "neg-shared-args-alone", emit=False, expect_violation=True)
+    report("SharedArgs: RelabelInPlace=TRUE is invisible to a caller that runs alone (AloneIsFine holds)", not r["violated"] and "No error has been found" in r["out"])
     inv = "INVARIANT Inv_C14\nINVARIANT Inv_C15\nINVARIANT Inv_ModelsAsConfigured"
     for defect, setting, name in (("LimitSigmaWriteBack", "limit_call", "Inv_C14"), ("LimitSigmaWriteBack", "limit_call", "Inv_ModelsAsConfigured"),
                                   ("TauZeroFallsBack", "tau0_call", "Inv_C15")):
@@ -138,6 +145,48 @@ def corruptions(run, report, seed):
     ev = copy.deepcopy(sb)
     ev[i]["stages"][k]["ints"][2] += 1
     report("the rank handed to the gamma callback changed -> S.gamma.rank", "S.gamma.rank" in sverdicts(ev))
+    # model construction (Sem!Construct): what the object holds against what was asked for
+    s4 = Session()
+    drivers.construct_campaign(s4, random.Random(seed + 2), 25)
+    cb = s4.events
+
+    def cverdicts(events, want):
+        res = tlc.validate(events, want, run.wd)
+        return [f for (_e, fails, _c) in res["results"] for f in fails]
+
+    report("accepted constructions have no failing clause", cverdicts(cb, {"C01", "C15", "C20"}) == [])
+    i = next(k for k, e in enumerate(cb) if e["op"] == "new_model" and e["args"]["kappa"]["t"] != "none")
+    ev = copy.deepcopy(cb)
+    ev[i]["model"]["kappa"] = repr(float(ev[i]["model"]["kappa"]) * 2)
+    report("a constructed model holding another kappa than asked for -> C01.model_not_as_constructed:kappa",
+           "C01.model_not_as_constructed:kappa" in cverdicts(ev, {"C01"}))
+    i = next(k for k, e in enumerate(cb) if e["op"] == "new_model" and e["args"]["tau"]["t"] == "none")
+    ev = copy.deepcopy(cb)
+    ev[i]["model"]["tau"] = "0.0833"
+    report("a default tau that is not 25/300 -> C15.model_not_as_constructed:tau", "C15.model_not_as_constructed:tau" in cverdicts(ev, {"C15"}))
+    # the rest of the surface (Extras.tla)
+    import extras
+    s5 = Session()
+    extras.extras_campaign(s5, random.Random(seed + 3))
+    xb = s5.events
+
+    def xverdicts(events):
+        res = tlc.validate(events, {"X"}, run.wd)
+        return [f for (_e, fails, _c) in res["results"] for f in fails]
+
+    report("accepted extra observations have no failing clause", xverdicts(xb) == [])
+    for what, change, clause in [
+            ("rank_data", lambda o: o["items"][0].__setitem__("v", str(int(o["items"][0]["v"]) + 1)), "X.rank_data"),
+            ("arg_sort", lambda o: o["items"].reverse(), "X.arg_sort"),
+            ("str_rating", lambda o: o.__setitem__("v", o["v"].replace("mu:", "mean:")), "X.str_rating"),
+            ("phi_major_inverse", lambda o: o.__setitem__("v", repr(float(o["v"]) + 1e-9)), "X.phi_major_inverse"),
+            ("unwind", lambda o: o["items"][1]["items"].reverse(), "X.unwind")]:
+        i = next(k for k, e in enumerate(xb) if e["op"] == "extra" and e["what"] == what and e["out"]["kind"] == "ok"
+                 and (what not in ("arg_sort", "unwind", "rank_data") or len({x["v"] for x in e["a"]["items"]}) > 1)
+                 and (what != "phi_major_inverse" or 0.2 < float(e["a"]["v"]) < 0.8))
+        ev = copy.deepcopy(xb)
+        change(ev[i]["out"]["value"])
+        report("an observed %s result changed -> %s" % (what, clause), clause in xverdicts(ev))
     # threads: an inserted write
     import sched
     s2 = Session()
@@ -153,6 +202,12 @@ def corruptions(run, report, seed):
     r3.wd = run.wd
     plans.validate_thread_log(r3, log2, "selftest")
     report("an inserted write to the shared model -> C14.thread_write_to_model", any("thread_write_to_model" in f for (_e, fs_, _t) in r3.violations for f in fs_))
+    log4 = log[:k] + [dict(log[k], ev="argwrite", attr="outcome_list", value="__setitem__")] + log[k:]
+    r5 = Run("C14", "quick", seed)
+    r5.wd = run.wd
+    plans.validate_thread_log(r5, log4, "selftest")
+    report("an inserted write to the shared outcome list -> C14.thread_write_to_shared_argument",
+           any("thread_write_to_shared_argument" in f for (_e, fs_, _t) in r5.violations for f in fs_))
     log3 = copy.deepcopy(log)
     log3[k]["value"] = "12345.0"
     r4 = Run("C14", "quick", seed)
